@@ -267,8 +267,16 @@ def parse_args(
         args = None
     options, args = parser.parse_args(args=args)
     if import_format_params:
-        align_imports_args = [int(x.strip())
-                              for x in options.align_imports.split(",")]
+        # A command-line value is a string ("32" or "24,32"); a default
+        # taken from pyproject.toml may already be an integer, a boolean or a
+        # list of integers.
+        align_imports_opt = options.align_imports
+        if isinstance(align_imports_opt, str):
+            align_imports_opt = align_imports_opt.split(",")
+        elif not isinstance(align_imports_opt, (list, tuple)):
+            align_imports_opt = [align_imports_opt]
+        align_imports_args = [int(x.strip() if isinstance(x, str) else x)
+                              for x in align_imports_opt]
         if len(align_imports_args) == 1 and align_imports_args[0] == 1:
             align_imports = True
         elif len(align_imports_args) == 1 and align_imports_args[0] == 0:
